@@ -386,6 +386,16 @@ def special_forms(ctx, mon, conn, tabs, cases):
                 if ctx.tier != 'quick' or (types.index(a) + types.index(b)) % 3 == 0:
                     stmts.append((f'SELECT coalesce(c_{a}, d_{b}, NULL) AS r FROM #v', None, 'coalesce/mixed'))
                     stmts.append((f'SELECT coalesce(c_{a}, %s) AS r FROM #v', (pools[b][0],), 'coalesce/param-mixed'))
+    # AND / OR / NOT accept operands of any type: their result is announced bool whatever the operands hold
+    for a in types:
+        stmts.append((f'SELECT NOT c_{a} AS r FROM #v', None, 'logic/not'))
+        stmts.append((f'SELECT c_{a} AND TRUE AS r, TRUE AND c_{a} AS q, c_{a} OR FALSE AS u, FALSE OR c_{a} AS w FROM #v', None, 'logic/with-constant'))
+        stmts.append((f'SELECT sum(c_{a} AND d_bool) AS r, count(c_{a} OR d_{a}) AS q FROM #v', None, 'logic/aggregated'))
+        for b in types:
+            stmts.append((f'SELECT c_{a} AND d_{b} AS r, c_{a} OR d_{b} AS q FROM #v', None, 'logic/binary'))
+            if (types.index(a) + types.index(b)) % 4 == 0:
+                stmts.append((f'SELECT c_{a} AND d_{b} AND d_{a} AS r, c_{a} OR d_{b} OR d_{a} AS q, NOT (c_{a} AND d_{b}) AS u FROM #v', None, 'logic/ternary'))
+                stmts.append((f'SELECT x FROM (SELECT c_{a} AND d_{b} AS x FROM #v) WHERE x OR NOT x OR x IS NULL', None, 'logic/nested'))
     stmts.append(('SELECT NULL AS r FROM #v', None, 'null'))
     stmts.append(('SELECT %s AS r FROM #v', (None,), 'param/none'))
     stmts.append(('SELECT coalesce(NULL, NULL) AS r FROM #v', None, 'coalesce/null'))
